@@ -79,6 +79,11 @@ def _is_offsets_element(e):
     return False
 
 
+def _unread(chk, ctx, f):
+    from ..report import unread_functions, Where
+    return unread_functions(ctx, Where((f.module.relpath, f.qualname, 0), f, f.node))
+
+
 def num_half():
     from fractions import Fraction
     return Fraction(1, 2)
@@ -203,8 +208,8 @@ def run(ctx, chk, tier="quick"):
             v = st.value
             ok = isinstance(v, ast.Call) and isinstance(v.func, ast.Name) and v.func.id == "max" and len(v.args) == 1
             chk.ob("C09.O4", ok, where_of(f, st), "default reference index = %s" % txt, "the highest level of the curve (max of its level ids)",
-                   key="%s|default-reference" % fq, why="without a reference the highest level of the curve is the origin")
-            desc["default"] = ok
+                   key="%s|default-reference" % fq, why="without a reference the highest level of the curve is the origin", scope=f)
+            desc["default"] = ok if (ok or not _unread(chk, ctx, f)) else None
         else:
             chk.indeterminate("C09.O4", where_of(f, f.node), "default reference index not found")
         # ---- O2 / O3: the rejection
